@@ -30,7 +30,7 @@ static const char *nm(const char *n) { return n ? (*n ? n : "\"\"") : "NULL"; }
 static void build_mops(void)
 {
 	static const long ints[] = { 0, -1, LONG_MAX };
-	static const char *strs[] = { "x", "", NULL };
+	static const char *strs[] = { "x", "", NULL, "\xff\xfe" };   /* the last: text that is not UTF-8, which no JSON string can hold */
 	static const int bools[] = { 0, 1, 2 };
 	static const char *jsons[] = { "{\"a\":1}", "{\"a\":{\"b\":2},\"c\":1.5}", "[1]", "{", "5", NULL, "{\"a\":1,\"a\":2}", "{}", "{\"a\":null,\"b\":null}" };
 	for (int n = 0; n < 4; n++) {
@@ -40,10 +40,10 @@ static void build_mops(void)
 				*m = (mop_t){ 0, JWT_VALUE_INT, NAMES[n], ints[i], NULL, 0, r, "" };
 				snprintf(m->label, sizeof m->label, "set_int(%s,%ld%s)", nm(NAMES[n]), ints[i], r ? ",replace" : "");
 			}
-			for (int i = 0; i < 3; i++) {
+			for (int i = 0; i < 4; i++) {
 				mop_t *m = &MOPS[NMOPS++];
 				*m = (mop_t){ 0, JWT_VALUE_STR, NAMES[n], 0, strs[i], 0, r, "" };
-				snprintf(m->label, sizeof m->label, "set_str(%s,%s%s)", nm(NAMES[n]), strs[i] ? (*strs[i] ? strs[i] : "\"\"") : "NULL", r ? ",replace" : "");
+				snprintf(m->label, sizeof m->label, "set_str(%s,%s%s)", nm(NAMES[n]), i == 3 ? "<not UTF-8>" : strs[i] ? (*strs[i] ? strs[i] : "\"\"") : "NULL", r ? ",replace" : "");
 			}
 			for (int i = 0; i < 3; i++) {
 				mop_t *m = &MOPS[NMOPS++];
@@ -182,6 +182,11 @@ static void model_apply(json_t *st, const mop_t *op, mres_t *r)
 	if (json_object_get(st, op->name) && !op->replace) {
 		json_decref(nv);
 		r->rc = r->verr = JWT_VALUE_ERR_EXIST;
+		return;
+	}
+	if (!nv) {
+		/* a value no JSON string can hold (text that is not UTF-8): refused, and a refused operation changes nothing */
+		r->rc = r->verr = JWT_VALUE_ERR_INVALID;
 		return;
 	}
 	json_object_set_new(st, op->name, nv);
